@@ -5,44 +5,46 @@
    Model/DecorSites.v: the audited list of sites that render a node to text. *)
 From Coq Require Import List NArith String.
 From Falco Require Import Gen.StringSites Model.Decor Model.DecorSites Proofs.DecorProofs.
+From Falco Require Import Base.Res Gen.Tokens Model.Lex Model.Pump Proofs.DecorReal.
+From Falco Require Model.ParseBase Model.ParseDecl.
 Import ListNotations.
 
 (* inserting / removing / moving ordinary comments, blanks and line feeds never changes the
    tokens the parser core consumes *)
 Theorem C09_pump_strip :
-  forall ts ts', decorate ts ts' -> significant ts' = significant ts.
-Proof. exact pump_strip. Qed.
+  forall (K A : Type) (ts ts' : list (tok K A)), decorate ts ts' -> significant ts' = significant ts.
+Proof. exact (@pump_strip). Qed.
 
 (* ... nor the annotation comments (scope / ignore / plugin annotations, #FASTLY macros) attached
    to each significant token, nor their line-feed flags *)
 Theorem C09_annotations_stable :
-  forall ts ts', decorate ts ts' -> annotations ts' = annotations ts.
-Proof. exact annotations_stable. Qed.
+  forall (K A : Type) (ts ts' : list (tok K A)), decorate ts ts' -> annotations ts' = annotations ts.
+Proof. exact (@annotations_stable). Qed.
 
 (* hence every parser core that is a function of the significant tokens, and every linter /
    interpreter that is a function of those and the annotations, is inert.  That the real parser,
    linter and interpreter ARE such functions is what the audited String sites and the
    differential oracle of checks/c09.py establish. *)
 Theorem C09_parse_core_inert :
-  forall (R : Type) (parse_core : list N -> R) ts ts',
+  forall (K A R : Type) (parse_core : list K -> R) (ts ts' : list (tok K A)),
     decorate ts ts' -> parse_core (significant ts') = parse_core (significant ts).
-Proof. exact parse_core_inert. Qed.
+Proof. exact (@parse_core_inert). Qed.
 
 Theorem C09_lint_core_inert :
-  forall (R : Type) (lint_core : list N -> list (list (N * bool)) -> R) ts ts',
+  forall (K A R : Type) (lint_core : list K -> list (list (A * bool)) -> R) (ts ts' : list (tok K A)),
     decorate ts ts' ->
     lint_core (significant ts') (annotations ts') = lint_core (significant ts) (annotations ts).
-Proof. exact lint_core_inert. Qed.
+Proof. exact (@lint_core_inert). Qed.
 
 (* a decision on rendered text (State(ReturnExpression.String()), Right.String() of case labels
    before the repairs) is not inert *)
 Theorem C09_rendered_text_refuted :
-  exists ts ts', decorate ts ts' /\ rendered ts' <> rendered ts.
+  exists ts ts' : list (tok N N), decorate ts ts' /\ rendered ts' <> rendered ts.
 Proof. exact rendered_text_refuted. Qed.
 
 (* the side condition on line feeds in [decorate] is needed *)
 Theorem C09_lf_before_annotation_refuted :
-  exists t1 t2, annotations (t1 ++ LF :: t2) <> annotations (t1 ++ t2).
+  exists t1 t2 : list (tok N N), annotations (t1 ++ LF :: t2) <> annotations (t1 ++ t2).
 Proof. exact lf_before_annotation_refuted. Qed.
 
 (* T tie: the call sites that render an ast.Node outside error messages, regenerated from the
@@ -50,6 +52,55 @@ Proof. exact lf_before_annotation_refuted. Qed.
 Theorem C09_string_sites_audited : sites = map fst audited_sites.
 Proof. reflexivity. Qed.
 
+(* ---- over the REAL pump model (Model/Pump.v, builder lex: Parser.ReadPeek over the lexer model's tokens)
+   and the REAL parser model (Model/Parse*.v, builder parse) ---- *)
+
+(* Model/Pump.v refines Model/Decor.v on every PRAGMA-free token stream: what pump_all hands on
+   ((type, literal) of the significant tokens; annotation comments with their line-feed flags)
+   is Decor.pump of the token-wise abstraction [absS] (LF -> LF, COMMENT -> Cmt / Ann, FASTLY_CONTROL ->
+   Blank, anything else -> Sig (type, literal); positions dropped; the stream is read up to its first EOF) *)
+Theorem C09_pump_refines_decor :
+  forall (is_ann : str -> bool) (e : token), is_eof e = true ->
+  forall ts n, no_pragma ts -> (S (List.length ts) <= n)%nat ->
+  exists ms, pump_all n e ts = OK ms /\
+             significant_real ms = significant (absS is_ann e ts) /\
+             annotations_real is_ann ms = annotations (absS is_ann e ts).
+Proof. exact pump_refines_decor. Qed.
+
+Theorem C09_pump_strip_real :
+  forall (is_ann : str -> bool) e e' ts ts' n n',
+  is_eof e = true -> is_eof e' = true ->
+  no_pragma ts -> no_pragma ts' -> (S (List.length ts) <= n)%nat -> (S (List.length ts') <= n')%nat ->
+  decorate (absS is_ann e ts) (absS is_ann e' ts') ->
+  exists ms ms', pump_all n e ts = OK ms /\ pump_all n' e' ts' = OK ms' /\
+                 significant_real ms' = significant_real ms /\
+                 annotations_real is_ann ms' = annotations_real is_ann ms.
+Proof. exact pump_strip_real. Qed.
+
+(* the parser model on the pumped tokens ([to_ptoks]: any projection of (type, literal) to the parser
+   model's tokens; [fok]: the parser model's float oracle) returns the same result, error included *)
+Theorem C09_parse_inert_real :
+  forall (tok_of : str * str -> ParseBase.token) (fok : ParseBase.str -> bool)
+         (is_ann : str -> bool) e e' ts ts' n n',
+  is_eof e = true -> is_eof e' = true ->
+  no_pragma ts -> no_pragma ts' -> (S (List.length ts) <= n)%nat -> (S (List.length ts') <= n')%nat ->
+  decorate (absS is_ann e ts) (absS is_ann e' ts') ->
+  exists ms ms', pump_all n e ts = OK ms /\ pump_all n' e' ts' = OK ms' /\
+     ParseDecl.parse_vcl fok (to_ptoks tok_of ms') = ParseDecl.parse_vcl fok (to_ptoks tok_of ms) /\
+     ParseDecl.parse_vcl_or_snippet fok (to_ptoks tok_of ms') = ParseDecl.parse_vcl_or_snippet fok (to_ptoks tok_of ms).
+Proof. exact parse_inert_real. Qed.
+
+(* inserting a real ordinary COMMENT token anywhere before the end of a real stream is a decoration *)
+Theorem C09_real_insert_comment :
+  forall (is_ann : str -> bool) e t1 t2 c,
+  Forall (fun t => is_eof t = false) t1 -> is_type T_COMMENT c = true -> is_ann (tlit c) = false ->
+  decorate (absS is_ann e (t1 ++ t2)) (absS is_ann e (t1 ++ c :: t2)).
+Proof. exact real_insert_comment. Qed.
+
+Print Assumptions C09_pump_refines_decor.
+Print Assumptions C09_pump_strip_real.
+Print Assumptions C09_parse_inert_real.
+Print Assumptions C09_real_insert_comment.
 Print Assumptions C09_pump_strip.
 Print Assumptions C09_annotations_stable.
 Print Assumptions C09_parse_core_inert.
